@@ -213,4 +213,24 @@ META = {
         "text": "In about 900 cases per quick run (page sizes 1-7 shrinking and growing, max-logs limits, 2-6 finalized-head steps, restarts mid-sync, JSON-RPC/HTTP/garbage/closed-connection failures, storage failures) every insert was for exactly the next DA height, the stored heights were contiguous from the deploy height, each height at or below the synced height held exactly the generated fuel events in log-index order (responses were shuffled, unfinalized blocks carried a bogus extra log), nothing beyond the finalized head was stored, and the announced synced height never decreased nor exceeded what was stored.",
         "note": "Trusted: harness DA node (filters like a real node), expected events built from generator fields, reads of EventsHistory. DA block 0 is outside the domain when deploy height is 0 (relayer treats it as seen). A relayer that stops progressing is inconclusive (watchdog), not a violation; uses real wall time and localhost sockets.",
     },
+
+    "C09": {
+        "ready": True,
+        "technique": "runtime monitoring: seeded commit histories through the real Database<D> of all five descriptions (memory + RocksDB, reopen), HeightLinkModel + map oracle",
+        "text": "Held on the histories produced: every observed commit that was accepted carried exactly one height equal to latest+1 (or the first), every well-formed commit was accepted, rejected commits changed neither content nor height, and latest_height / persisted metadata / latest_view height equalled the last accepted height after every commit and reopen.",
+        "note": "Trusted: mon-db/src/model.rs map model, the harness' row encoders (the table codecs themselves), the equivalent height lookup used for lists on non-on-chain databases. No crash-point injection inside commits; restarts are clean.",
+    },
+    "C11": {
+        "ready": True,
+        "technique": "runtime monitoring: differential execution of MemoryStore, RocksDb, HistoricalRocksDB (all rewind policies) and ChangesIterator against a sorted-map model with systematic prefix/start/direction enumeration over a boundary-heavy key alphabet",
+        "text": "Held on the histories produced: after every accepted commit every backend held the model's contents, every get and every in-contract (prefix,start,direction) query over the alphabet {00,01,7F,FE,FF}^0..3 returned the model's entries in order, and held snapshots did not change. Three defects found by this monitor (reverse prefix iteration x2, ChangesList flatten) were repaired by fix: commits.",
+        "note": "Trusted: filter+sort model_iter. Excluded and counted: duplicate-key lists (backends legitimately differ in how they reject), start outside prefix (outside the documented contract), forward prefixes shorter than a column's fixed prefix extractor. A valgrind memcheck pass (0 errors) was run by hand and is not part of the registered command.",
+    },
+    "C12": {
+        "ready": True,
+        "steps": [{"crate": "mon-db", "name": "mon-db", "args_quick": {"per-shard": 2}}],
+        "technique": "runtime monitoring: seeded histories of block commits, restarts with changing StateRewindPolicy, rollbacks and re-commits on a RocksDB-backed Database<OnChain>; view_at for every height after every step vs a per-height map model",
+        "text": "Held on the histories produced: every successful view (fresh or held across later commits and rollbacks) returned exactly the state after its block whenever all diffs above it exist, every rollback restored the previous state and height (also after reopen), and failures were only the no-history error. Open known finding: wrong answers when the history above h has a gap after a rewind-policy change. One defect found by this monitor (held view reading history outside its snapshot) was repaired by a fix: commit.",
+        "note": "Trusted: per-height map model and the diff-presence rule used only to label the known finding; view errors (no-history) are never judged; no crash points; fixed-length keys per column.",
+    },
 }
